@@ -177,6 +177,7 @@ type filterPlan struct {
 	Tail        int      `json:"tail"`
 	HeaderLines int      `json:"header_lines"`
 	WithNth     string   `json:"with_nth"`
+	Nth         string   `json:"nth"` // --nth: search scope
 	Ansi        bool     `json:"ansi"`
 	Decorate    int      `json:"decorate"` // every k-th line carries SGR sequences (0: none)
 	FinalOpen   bool     `json:"final_open"`
@@ -202,6 +203,12 @@ func genFilterPlan(r *zsim.Rng) *filterPlan {
 		n = r.Range(500, 3600)
 	}
 	p.Lines = lineSpec{N: n, Seed: r.Seed53(), Shape: r.Intn(4)}
+	if r.Chance(1, 3) {
+		p.Lines.Trail = r.Range(1, 5)
+	}
+	if r.Chance(1, 5) {
+		p.Nth = []string{"1", "2", "2..", "-1", "1,3", "..2"}[r.Intn(6)]
+	}
 	p.Query = genQuery(r, p.Match.Extended)
 	if r.Chance(1, 3) {
 		p.Query = ""
@@ -342,6 +349,9 @@ func (p *filterPlan) args(query string) []string {
 	if p.Sync {
 		a = append(a, "--sync")
 	}
+	if p.Nth != "" {
+		a = append(a, "--nth", p.Nth)
+	}
 	if p.Tail > 0 {
 		a = append(a, "--tail", strconv.Itoa(p.Tail))
 	}
@@ -474,6 +484,10 @@ func expectFilter(c *runCtx, p *filterPlan, opts *Options, records []string, con
 	}
 	mc := p.Match
 	mc.forcePos = true
+	mc.nth = opts.Nth
+	if len(mc.nth) > 0 {
+		c.count("probe.nth_scope", 1)
+	}
 	res := freshFilter(items, query, mc)
 	if p.PrintQuery {
 		lines = append(lines, query)
